@@ -394,6 +394,15 @@ def element_writes(cn, effs):
     return out
 
 
+def pair_of(t):
+    """the two components of a (rows, cols) pair: a tuple, or `m.shape_generic()` / `m.shape()`"""
+    if t[0] == "tuple" and len(t[1]) == 2:
+        return (t[1][0], t[1][1])
+    if t[0] == "call" and len(t) == 5 and t[3] and last(t[1]) in ("shape_generic", "shape") and "nalgebra" in t[1]:
+        return (("call", "nalgebra::Matrix::nrows", None, (t[3][0],), None), ("call", "nalgebra::Matrix::ncols", None, (t[3][0],), None))
+    return None
+
+
 def column_writes(cn, effs):
     """[Write] kind 'col': whole-column writes `col.copy_from(v)`, `M.set_column(k, v)`; idx = (k,)"""
     out = []
@@ -407,6 +416,40 @@ def column_writes(cn, effs):
                 out.append(Write(r[1], (r[2],), cn.canon(e.raw[1]), e, "col"))
         elif n == "set_column" and len(e.raw) >= 3:
             out.append(Write(cn.container(e.raw[0]), (cn.canon(e.raw[1]),), cn.canon(e.raw[2]), e, "col"))
+        if n in ("copy_from", "tr_copy_from") and len(e.raw) >= 2 and n == "copy_from":
+            # block copy `D.generic_view_mut((0, c0), (nr, nc)).copy_from(&SRC)` / `D.columns_mut(c0, nc).copy_from(&SRC)`:
+            # for every k below nc, column k + c0 of D receives column k of SRC — provided the block spans all rows
+            # of D (otherwise rows stay as allocated, which a per-column copy would have refused with a panic)
+            v0 = strip_mut(e.raw[0])
+            if v0[0] != "call" or len(v0) != 5 or "nalgebra" not in v0[1]:
+                continue
+            vn = last(v0[1])
+            zero = ("const", "usize", 0)
+            blk = None
+            if vn in ("generic_view_mut", "view_mut") and len(v0[3]) == 3 and pair_of(v0[3][1]) and pair_of(v0[3][2]):
+                blk = (v0[3][0],) + pair_of(v0[3][1]) + pair_of(v0[3][2])
+            elif vn in ("columns_mut", "columns_generic_mut") and len(v0[3]) == 3:
+                blk = (v0[3][0], zero, v0[3][1], None, v0[3][2])
+            if blk is None:
+                continue
+            D = cn.container(blk[0])
+            r0, c0 = cn.canon(dimval(blk[1])), cn.canon(dimval(blk[2]))
+            nc = dimval(blk[4])
+            SRC = cn.container(e.raw[1])
+            if r0 != zero:
+                continue
+            if blk[3] is not None:
+                nr = cn.norm_extent(cn.canon(dimval(blk[3])))
+                dr = cn.norm_extent(("nrows", D))
+                if not (nr == dr or ilin_eq(nr, dr)):
+                    # the block's row count must be D's (copy_from itself makes it SRC's, or panics)
+                    g = Guards(cn.ev, e.body, e.env)
+                    rels = [(r[0], cn.norm_extent(cn.canon(r[1])), cn.norm_extent(cn.canon(r[2]))) for r in g.relations_at(e.block)[0] if r[0] in ("Le", "Lt", "Eq")]
+                    if not provably_eq(nr, dr, rels):
+                        continue
+            iv = cn.iv_for(("gen", cn._nosite(v0), 1), ("agg", "std::ops::Range", None, (("start", zero), ("end", nc))))
+            k = iv if c0 == zero else ("bin", "Add", iv, c0)
+            out.append(Write(D, (cn.canon(k),), ("col", SRC, iv), e, "col"))
     return out
 
 
@@ -446,6 +489,19 @@ def generator_of(cn, t):
         start = cn.canon(dimval(t0[3][1]))
         i0 = iv if start == ("const", "usize", 0) else ("bin", "Add", iv, start)
         return (cn.norm_extent(cn.canon(ln)),), cn.mk_at(V, (i0,)), (iv,)
+    if n in ("generic_view", "view") and "nalgebra" in t0[1] and len(t0[3]) == 3 and pair_of(t0[3][1]) and pair_of(t0[3][2]):
+        # an owned copy of a rectangular view: element (i, j) is M[i + r0, j + c0] for i < nr, j < nc
+        M = cn.container(t0[3][0])
+        (r0, c0), (nr, nc) = [cn.canon(dimval(x)) for x in pair_of(t0[3][1])], [dimval(x) for x in pair_of(t0[3][2])]
+        one = lambda d: d == ("const", "usize", 1) or (d[0] == "constitem" and d[1].endswith("U1"))
+        zero = ("const", "usize", 0)
+        ivr = cn.iv_for(("gen", cn._nosite(t0), 0), ("agg", "std::ops::Range", None, (("start", zero), ("end", nr))))
+        ir = ivr if r0 == zero else ("bin", "Add", ivr, r0)
+        if one(nc) and c0 == zero:
+            return (cn.norm_extent(cn.canon(nr)),), cn.mk_at(M, (ir,)), (ivr,)
+        ivc = cn.iv_for(("gen", cn._nosite(t0), 1), ("agg", "std::ops::Range", None, (("start", zero), ("end", nc))))
+        ic = ivc if c0 == zero else ("bin", "Add", ivc, c0)
+        return (cn.norm_extent(cn.canon(nr)), cn.norm_extent(cn.canon(nc))), cn.mk_at(M, (ir, ic)), (ivr, ivc)
     if n == "map" and "nalgebra" in t0[1] and len(t0[3]) == 2 and t0[3][1][0] == "closure":
         src = cn.container(t0[3][0])
         key = ("gen", cn._nosite(t0), 0)
@@ -684,6 +740,13 @@ def written_each_iteration(cn, w, iv):
     for k, n in cn.keys.items():
         if n == iv[1]:
             key = k
+    if key is not None and key[0] == "gen":
+        # a block write performs all its columns at once: what remains is that helpers on the way to it perform it on
+        # every success path
+        for body, blk in chain[1:]:
+            if not body.must_pass(0, success_returns(body), {blk}):
+                return False, "helper `%s` can return successfully without performing the write" % body.key[-60:]
+        return True, ""
     if key is None or key[0] != "drv":
         return False, "the index is not the counter of a loop or of a driven closure"
     m = key[1]
